@@ -1417,8 +1417,11 @@ class Node:
                 f"received a CER from an unknown peer {cer_origin_host}, "
                 f"closing this connection")
             answer.result_code = constants.E_RESULT_CODE_DIAMETER_UNKNOWN_PEER
-            conn.state = PEER_CLOSING
+            # the answer is queued before the connection counts as closing:
+            # a closing connection with nothing left to write is closed
             self.send_message(conn, answer)
+            conn.state = PEER_CLOSING
+            conn.demand_attention()
             return
 
         elif not conn.node_name:
@@ -1445,8 +1448,9 @@ class Node:
                 self.logger.warning(
                     f"{conn} CER election lost, closing this connection")
                 answer.result_code = constants.E_RESULT_CODE_DIAMETER_ELECTION_LOST
-                conn.state = PEER_CLOSING
                 self.send_message(conn, answer)
+                conn.state = PEER_CLOSING
+                conn.demand_attention()
                 return
 
         cer_auth_apps = set(message.auth_application_id)
@@ -1480,15 +1484,18 @@ class Node:
         conn.host_ip_address = [
             i[1] for i in message.host_ip_address if i is not None]
 
+        # the CEA is queued before the connection is offered for routing: a
+        # request sent by an application that was waiting for the peer must
+        # not overtake it
+        answer.result_code = constants.E_RESULT_CODE_DIAMETER_SUCCESS
+        self.send_message(conn, answer)
+
         self._assign_peer_connection(conn)
         self._flag_connection_as_ready(conn)
         self.logger.info(
             f"{conn} is now ready, determined supported auth applications: "
             f"{supported_auth_apps}, supported acct applications: "
             f"{supported_acct_apps}")
-
-        answer.result_code = constants.E_RESULT_CODE_DIAMETER_SUCCESS
-        self.send_message(conn, answer)
 
     def receive_dpa(self, conn: PeerConnection, message: DisconnectPeerAnswer):
         self.logger.info(f"{conn} got DPA")
